@@ -134,8 +134,9 @@ DecPktStep(e) ==
       okW == e.W \in {0, 1}
       rules ==
         (IF e.rs # 0 \/ e.rb # 0 THEN {"PacketDecodes"} ELSE {}) \cup
-        (IF e.managed = 0 /\ e.rs = 0 /\ ~(8 * (e.bytes - 1) < e.used /\ e.used <= 8 * e.bytes) THEN {"ConsumedToLastByte"} ELSE {}) \cup
-        (IF e.managed = 1 /\ ~b.hardmax /\ e.rs = 0 /\ e.used > 8 * e.bytes THEN {"NeverRunsOutOfBits"} ELSE {}) \cup
+        \* "without bitrate management" is what the application asked for (st.man), not what the engine happens to do
+        (IF ~st[e.x].man /\ e.rs = 0 /\ ~(8 * (e.bytes - 1) < e.used /\ e.used <= 8 * e.bytes) THEN {"ConsumedToLastByte"} ELSE {}) \cup
+        (IF st[e.x].man /\ ~b.hardmax /\ e.rs = 0 /\ e.used > 8 * e.bytes THEN {"NeverRunsOutOfBits"} ELSE {}) \cup
         (IF okW /\ k.ok /\ e.rs = 0 /\ e.rb = 0 /\ e.n # n1 THEN {"SamplesPerPacket"} ELSE {})
       drift == IF okW /\ k.ok /\ e.rs = 0 /\ e.rb = 0 /\ ~DecStateMatches(d1, e) THEN {"DecoderStateDiffersFromTranscription"} ELSE {}
   IN /\ Step(rules, drift, e)
@@ -185,11 +186,13 @@ Next ==
        [] e.e = "HeaderOut" -> Step(ChkHeaderOut(st[e.x], e), {}, e) /\ UNCHANGED <<st, bk, dk, br>>
        [] e.e = "InfoClear" -> Step(ChkInfoClear(st[e.x], e), {}, e) /\ SetSt(e.x, InitEnc) /\ UNCHANGED <<bk, dk, br>>
        [] e.e = "BrInit" ->
+            /\ Report("VIOL", IF e.managed = 1 /\ e.unit = 0 /\ ~st[e.x].man THEN {"NoRateManagerWhenSwitchedOff"} ELSE {}, e)
             /\ br' = [P |-> [K |-> e.K, minb |-> e.minb, maxb |-> e.maxb, avgb |-> e.avgb, spl |-> e.spl, R |-> e.R, fill |-> e.fill,
                              rn |-> e.rn, mxn |-> e.mxn, mnn |-> e.mnn, bs0 |-> e.bs0, bs1 |-> e.bs1, realok |-> (e.realok = 1)],
                       on |-> (e.managed = 1), res |-> e.res, dmax |-> 0, dmin |-> 0, dmaxR |-> 0, dminR |-> 0]
             /\ bk' = [bk EXCEPT ![e.x] = [bk[e.x] EXCEPT !.managed = (e.managed = 1), !.hardmax = (e.maxb > 0)]]
-            /\ l' = l + 1 /\ UNCHANGED <<scn, nviol, ndrift, st, dk>>
+            /\ nviol' = nviol + (IF e.managed = 1 /\ e.unit = 0 /\ ~st[e.x].man THEN 1 ELSE 0)
+            /\ l' = l + 1 /\ UNCHANGED <<scn, ndrift, st, dk>>
        [] e.e = "AddBlock" -> IF br.on THEN AddBlockStep(e) ELSE (l' = l + 1 /\ UNCHANGED <<scn, nviol, ndrift, st, bk, dk, br>>)
        [] e.e = "Wrote" -> WroteStep(e)
        [] e.e = "Pkt" -> PktStep(e)
